@@ -31,7 +31,11 @@ E_Color == [name |-> Id1("Color", "color", "Color", "COLOR"), lits |-> <<
     [name |-> Id1("Red", "red", "Red", "RED"), val |-> <<82, 69, 68>>],                                     \* "RED"
     [name |-> Id("Gr_een", <<"gr", "een">>, <<"Gr", "Een">>, <<"GR", "EEN">>), val |-> <<103, 114, 32, 101, 101, 110>>],   \* "gr een"
     [name |-> Id1("Nothing", "nothing", "Nothing", "NOTHING"), val |-> <<>>],                               \* ""
-    [name |-> Id1("Odd", "odd", "Odd", "ODD"), val |-> <<60, 38, 62, 39, 34, 92>>] >>]                      \* <&>'"\
+    [name |-> Id1("Odd", "odd", "Odd", "ODD"), val |-> <<60, 38, 62, 39, 34, 92>>],                        \* <&>'"\
+    \* not printable (str.isprintable), above U+00FF and above U+FFFF: LINE SEPARATOR a ZERO WIDTH SPACE; TAG char + BOM; private use
+    [name |-> Id1("Sep", "sep", "Sep", "SEP"), val |-> <<8232, 97, 8203>>],
+    [name |-> Id("Tag_BOM", <<"tag", "bom">>, <<"Tag", "Bom">>, <<"TAG", "BOM">>), val |-> <<917505, 65279>>],
+    [name |-> Id1("Private", "private", "Private", "PRIVATE"), val |-> <<983040, 120>>] >>]
 M_Enums == Prep([id |-> "enums", root |-> "Something", enums |-> <<E_Color>>, classes |-> <<
     Cls(I_Something, FALSE, FALSE, <<>>, <<
         P(Id1("color", "color", "Color", "COLOR"), TEnum("Color")),
@@ -67,7 +71,8 @@ M_Hier == Prep([id |-> "hier", root |-> "Something", enums |-> <<>>, classes |->
         O(Id1("leaves", "leaves", "Leaves", "LEAVES"), TList(TCls("Leaf"))) >>) >>])
 
 (* model "mixin": multiple inheritance from abstract classes, a declared default (kind_or_default), multi-part names
-   with abbreviations, a concrete class with model type that nobody dispatches on *)
+   with abbreviations, a concrete class with a concrete descendant, both with abbreviations in their names (the slot dispatches
+   on a model type that differs from the Python class name) *)
 E_Kind == [name |-> Id("Modelling_kind", <<"modelling", "kind">>, <<"Modelling", "Kind">>, <<"MODELLING", "KIND">>), lits |-> <<
     [name |-> Id1("Template", "template", "Template", "TEMPLATE"), val |-> <<84, 101, 109, 112, 108, 97, 116, 101>>],
     [name |-> Id1("Instance", "instance", "Instance", "INSTANCE"), val |-> <<73, 110, 115, 116, 97, 110, 99, 101>>] >>]
@@ -80,6 +85,8 @@ M_Mixin == Prep([id |-> "mixin", root |-> "Something", enums |-> <<E_Kind>>, cla
     Cls(Id("Data_element_URL", <<"data", "element", "url">>, <<"Data", "Element", "Url">>, <<"DATA", "ELEMENT", "URL">>), FALSE, TRUE, <<"Has_kind", "Has_semantics_ID">>, <<
         P(Id("value_ID", <<"value", "id">>, <<"Value", "Id">>, <<"VALUE", "ID">>), TStr),
         O(Id("ID_short", <<"id", "short">>, <<"Id", "Short">>, <<"ID", "SHORT">>), TStr) >>),
+    Cls(Id("Deep_element_IEC", <<"deep", "element", "iec">>, <<"Deep", "Element", "Iec">>, <<"DEEP", "ELEMENT", "IEC">>), FALSE, FALSE, <<"Data_element_URL">>, <<
+        O(Id1("extra", "extra", "Extra", "EXTRA"), TInt) >>),
     Cls(I_Something, FALSE, FALSE, <<"Has_kind">>, <<
         P(Id("data_element", <<"data", "element">>, <<"Data", "Element">>, <<"DATA", "ELEMENT">>), TCls("Data_element_URL")),
         O(Id("more_elements", <<"more", "elements">>, <<"More", "Elements">>, <<"MORE", "ELEMENTS">>), TList(TCls("Data_element_URL"))) >>) >>])
@@ -92,6 +99,24 @@ M_Rec == Prep([id |-> "rec", root |-> "Node", enums |-> <<>>, classes |-> <<
         O(Id1("children", "children", "Children", "CHILDREN"), TList(TCls("Node"))) >>) >>])
 
 FixedModels == <<M_Prims, M_Enums, M_Hier, M_Mixin, M_Rec>>
+
+(* model "diamond" (traversal only): a shared abstract ancestor with descendable properties, reached along two paths *)
+I_LeafP(n, c, u) == Id1(n, n, c, u)
+M_Diamond == Prep([id |-> "diamond", root |-> "Something", enums |-> <<>>, classes |-> <<
+    Cls(I_Leaf, FALSE, FALSE, <<>>, << P(Id1("n", "n", "N", "N"), TInt) >>),
+    Cls(Id("Has_parts", <<"has", "parts">>, <<"Has", "Parts">>, <<"HAS", "PARTS">>), TRUE, TRUE, <<>>, <<
+        O(Id1("parts", "parts", "Parts", "PARTS"), TList(TCls("Leaf"))), O(Id1("first", "first", "First", "FIRST"), TCls("Leaf")) >>),
+    Cls(Id("Has_source", <<"has", "source">>, <<"Has", "Source">>, <<"HAS", "SOURCE">>), TRUE, FALSE, <<"Has_parts">>, <<
+        O(Id1("source", "source", "Source", "SOURCE"), TCls("Leaf")) >>),
+    Cls(Id("Has_target", <<"has", "target">>, <<"Has", "Target">>, <<"HAS", "TARGET">>), TRUE, FALSE, <<"Has_parts">>, <<
+        O(Id1("target", "target", "Target", "TARGET"), TCls("Leaf")) >>),
+    Cls(Id("Only_source", <<"only", "source">>, <<"Only", "Source">>, <<"ONLY", "SOURCE">>), FALSE, FALSE, <<"Has_source">>, <<>>),
+    Cls(Id1("Link", "link", "Link", "LINK"), FALSE, FALSE, <<"Has_source", "Has_target">>, <<
+        O(Id1("label", "label", "Label", "LABEL"), TCls("Leaf")) >>),
+    Cls(I_Something, FALSE, FALSE, <<>>, <<
+        P(Id1("link", "link", "Link", "LINK"), TCls("Link")),
+        O(Id1("links", "links", "Links", "LINKS"), TList(TCls("Has_parts"))) >>) >>])
+WalkModels == FixedModels \o <<M_Diamond>>
 
 -----------------------------------------------------------------------------
 (* parametric family: a container with two properties, each of one of 32 kinds -- 1024 meta-models *)
@@ -175,6 +200,6 @@ Star(m, c, d, full, mode) == Star1(m, d, full, mode, AllProps(m, c), Base(m, c, 
 Roots(m, d, mode) ==
     UNION {{Base(m, c, d, FALSE), Base(m, c, d, TRUE)} \cup Star(m, c, d, FALSE, mode) \cup Star(m, c, d, TRUE, mode) : c \in ConcreteOf(m, m.root)}
 
-ASSUME \A i \in 1..Len(FixedModels) : ModelOk(FixedModels[i])
+ASSUME \A i \in 1..Len(WalkModels) : ModelOk(WalkModels[i])
 ASSUME ModelOk(ParamModel(8, 32))
 =============================================================================
